@@ -58,6 +58,7 @@ class Harness:
         self.bound = []
         self.assume = []
         self.canary = False
+        self.ignore = None
         self.expect = 'pass'
 
     @property
@@ -87,6 +88,7 @@ def parse_harness_files():
             elif s.startswith('//@h'):
                 cur = Harness()
                 cur.file = meta
+                cur.ignore = meta.get('ignore')
                 for kv in s.split()[1:]:
                     k, v = kv.split('=', 1)
                     _set(cur, k, v)
@@ -313,6 +315,11 @@ def attributed(c, prop):
 def classify(h, r, prop=None):
     """-> (verdict, failing_checks, notes).  verdict in pass|fail|inconclusive"""
     checks = r['checks']
+    if h.ignore:
+        # documented tool artefacts (DESIGN.md section 9): reported in the evidence, never counted
+        ign = [c for c in checks if c['status'] == 'Failure' and re.search(h.ignore, check_key(c))]
+        r['ignored'] = [check_key(c) for c in ign]
+        checks = [c for c in checks if c not in ign]
     if prop and prop != 'ALL':
         checks = [c for c in checks if c['status'] != 'Failure' or attributed(c, prop)]
     st = r['status']
@@ -327,6 +334,8 @@ def classify(h, r, prop=None):
     if st == 'Missing' or (not checks):
         et = err.get('error_type') or err.get('exit_status') or st
         return 'inconclusive', [], ['no checks reported (%s): time-out, out of memory or CBMC error' % et]
+    if st != 'Success' and h.ignore and r.get('ignored') and not failing:
+        st = 'Success'
     if real_fail:
         return 'fail', real_fail, notes
     if unwind_fail:
@@ -652,6 +661,7 @@ def write_ev(prop, tier, seed, sel, results, verdicts, known_hits, violations, i
             'solver_time_s': round(solver_s, 2),
             'symex_time_s': round(symex_s, 2),
             'known_findings_reported': [k['id'] for (_, _, k) in known_hits],
+            'ignored_tool_artefacts': sorted(set(x for h in sel for x in (results.get(h.name) or {}).get('ignored', []))),
             'inconclusive': ['%s: %s' % (h.name if h else '-', '; '.join(n)) for (h, n) in inconclusive],
             'exhaustive': False,
             'explanation': 'bounded symbolic model checking of the implementation: the encoding is regenerated from /repo\'s working tree on every run '
